@@ -320,6 +320,7 @@ pub fn run(ctx: &mut Ctx, c07: bool) {
     };
     let per = if ctx.thorough { 2000 } else { 500 };
     let mut sh = Shards::new(&ctx.out, "bytes", DOC_IMPORTS, "doccase", evals, "show_case", per);
+    let mut lx = crate::lex::LexShards::new(&ctx.out, ctx.thorough);
     let mut hist = Hist::default();
     let mut samples: Vec<J> = vec![];
     let mut distinct = std::collections::HashSet::new();
@@ -406,6 +407,12 @@ pub fn run(ctx: &mut Ctx, c07: bool) {
             cases.push((vec![b"<a><b x=\"1\"/>t</a>".to_vec(), b.clone()], "token-exhaustive-extension".into()));
         }
         cases.push((vec![b], "token-exhaustive".into()));
+    }
+    // byte strings made of the pieces the reader's automaton distinguishes (markup openers and
+    // closers, quotes, blanks, a byte-order mark, invalid UTF-8): they go through the whole check and
+    // through the lexer correspondence
+    for _ in 0..(if ctx.thorough { 12000 } else { 2500 }) {
+        cases.push((vec![crate::lex::soup(&mut rng)], "markup-soup".into()));
     }
     for i in 0..n {
         let rp = crate::docprops::rand_pool(&mut rng);
@@ -498,6 +505,7 @@ pub fn run(ctx: &mut Ctx, c07: bool) {
         cases.push((docs, label));
     }
     let caps = [0usize, 0, 1, 2, 3, 7, 64, 8192];
+    let mut lex_seen = 0usize;
     for (docs, label) in cases {
         let cfg = if c07 {
             RCfg {
@@ -525,6 +533,14 @@ pub fn run(ctx: &mut Ctx, c07: bool) {
         // deeply nested chains are rendered by the implementation (it must not panic) but
         // not by the model: name hints of a 200-deep chain are slow to evaluate in Coq
         let deep = label == "deep-nesting" && docs.iter().any(|d| d.len() > 150);
+        // the lexer model against the real reader (default configuration, from the slice): every
+        // short input, except that only a seventh of the longest token sequences are taken
+        lex_seen += 1;
+        if !(label == "token-exhaustive" && docs[0].len() > 12 && lex_seen % 7 != 0) {
+            for d in &docs {
+                lx.add(d, label.split('+').next().unwrap_or(""));
+            }
+        }
         let b = build_case(None, &docs, &cfg, if deep { &[] } else { &opts }, &mut sh.intern, vec![("kind", json::s(&label))]);
         if deep {
             if let ImplResult::Tree(_, e) = &b.result {
@@ -588,6 +604,12 @@ pub fn run(ctx: &mut Ctx, c07: bool) {
         samples.push(json::s("(see replay files / shards)"));
     }
     ctx.shards.extend(sh.finish());
+    for (k, v) in &lx.kinds {
+        hist.addn(k, *v);
+    }
+    ctx.meta.push(("lexer_cases", J::N(lx.sh.total as i64)));
+    ctx.meta.push(("lexer_longest_input", J::N(lx.max_len as i64)));
+    ctx.shards.extend(lx.sh.finish());
     if c07 {
         ctx.add_chars();
     }
